@@ -37,7 +37,7 @@ COMPONENTS = {
     "stub": ["CAN backend (SimBus)", "can.Notifier", "threading.Condition in canopen.pdo.base (simulator primitive)", "python-can cyclic task (SimCyclicTask)"],
 }
 PROBES = ["tpdo-direction", "rpdo-direction", "config-by-save-read", "colliding-cob-ids", "sub-byte-field", "unaligned-multibyte", "callback", "rtr-sent",
-          "rtr-suppressed", "reconfigured", "frame-on-old-cob-id", "wait-returned", "wait-none", "periodic", "mode-T", "two-waiters", "configuration-reapplied-on-one-side"]
+          "rtr-suppressed", "reconfigured", "frame-on-old-cob-id", "wait-returned", "wait-none", "periodic", "mode-T", "two-waiters", "configuration-reapplied-on-one-side", "node-reattached"]
 
 TYPES8 = (odm.UNSIGNED8, odm.INTEGER8, odm.BOOLEAN)
 FULL = [odm.UNSIGNED8, odm.INTEGER8, odm.BOOLEAN, odm.UNSIGNED16, odm.INTEGER16, odm.UNSIGNED24, odm.INTEGER24, odm.UNSIGNED32, odm.INTEGER32,
@@ -182,6 +182,9 @@ class Pair:
         self.cb_log = []
         self.cb_installed = False
         self.old_cob_ids = []
+        # the COB-ID the consuming map has been subscribed to through the API (subscribe() / read() / save() of an
+        # enabled map), or None when that is not known (never configured, or its node was taken off the network since)
+        self.must_consume = None
 
 
 class W:
@@ -236,6 +239,10 @@ def configure(ctx, w, pair, cob_id, layout, enabled=True, rtr=True, via_save=Fal
         lmap.subscribe()
     pair.layout = list(layout)
     pair.values = [None] * len(layout)
+    if enabled:
+        pair.must_consume = cob_id
+    elif pair.must_consume != cob_id:
+        pair.must_consume = None        # (a subscription outlives 'enabled = False' on the same COB-ID)
     if not pair.cb_installed and ctx.choice(2, "cb"):
         pair.cons.add_callback(lambda m, p=pair: p.cb_log.append(m))
         pair.cb_installed = True
@@ -306,6 +313,10 @@ def transmit_and_check(ctx, w, pairs, pair, what, periodic=False):
         elif changed and p.cons_bus == pair.cons_bus:
             ctx.violation("C15/wrong-map-updated", "%s: frame %r changed %s%d whose COB-ID is %s (enabled=%s)" % (
                 what, fr, p.direction, p.number, None if p.cons.cob_id is None else hex(p.cons.cob_id), p.cons.enabled))
+    for p in pairs:
+        if p.cons_bus == pair.cons_bus and p.must_consume == fr.can_id and p.cons.cob_id == fr.can_id and p not in exp:
+            ctx.violation("C15/consumer-not-subscribed", "%s: %s%d was enabled and subscribed (subscribe() / read() / save()) with COB-ID 0x%X, but frame %r did not reach it" % (
+                what, p.direction, p.number, fr.can_id, fr))
     if len(exp) > 1:
         ctx.probe("colliding-cob-ids")
     # values
@@ -518,7 +529,7 @@ def scenario(ctx):
             elif cls == "unaligned-multibyte":
                 ctx.probe("unaligned-multibyte")
             what = "%s%d" % (pair.direction, pair.number)
-            op = ctx.weighted(((8, "tx"), (2, "periodic"), (2, "rtr"), (2, "reconf"), (1, "toggle"), (3, "wait"), (1, "oldcob")), "op")
+            op = ctx.weighted(((8, "tx"), (2, "periodic"), (2, "rtr"), (2, "reconf"), (1, "toggle"), (3, "wait"), (1, "oldcob"), (1, "reattach")), "op")
             if op == "tx":
                 assign(ctx, pair, what)
                 transmit_and_check(ctx, w, pairs, pair, what + " transmit")
@@ -554,6 +565,27 @@ def scenario(ctx):
                         newcob += 1     # one producer per COB-ID (collisions are set up on purpose, same direction, same layout)
                 configure(ctx, w, pair, newcob, gen_layout(ctx), enabled=True, rtr=ctx.choice(3, "rtr") != 0, via_save=ctx.choice(3, "viasave") == 0)
                 ctx.probe("reconfigured")
+            elif op == "reattach":
+                # the node object of one side is taken off its network and added to it again (same object, same id);
+                # whether its maps still listen afterwards is left open, but every configuration step from now on
+                # (subscribe() / read() / save() of an enabled map) has to make them listen again
+                side = ctx.choice(2, "side")
+                net, node = ((w.mnet, w.remote), (w.snet, w.local))[side]
+
+                def redo():
+                    del net[w.nid]
+                    net.add_node(node)
+                _, exc = call(redo)
+                if exc is not None:
+                    ctx.violation("C15/reattach-raised/%s@%s" % (type(exc).__name__, site(exc)), "removing the %s node from its network and adding it again raised %r" % (("remote", "local")[side], exc))
+                for p in pairs:
+                    if p.cons_net is net:
+                        p.must_consume = None
+                ctx.probe("node-reattached")
+                if ctx.choice(3, "reconf-after") != 0:
+                    configure(ctx, w, pair, pair.prod.cob_id, pair.layout, enabled=True, rtr=pair.cons.rtr_allowed, via_save=ctx.choice(3, "viasave") == 0)
+                    assign(ctx, pair, what)
+                    transmit_and_check(ctx, w, pairs, pair, what + " transmit after the node was re-attached and the map configured again")
             elif op == "toggle":
                 en = not pair.cons.enabled
                 configure(ctx, w, pair, pair.prod.cob_id, pair.layout, enabled=en, rtr=pair.cons.rtr_allowed, via_save=False)
